@@ -73,7 +73,10 @@ RsaReturned(e) ==
                    IF e.has.pq THEN Same("p", k.p, o.p.m) ELSE "ok", IF e.has.pq THEN Same("q", k.q, o.q.m) ELSE "ok", IF e.has.u THEN Same("u", k.u, o.u.m) ELSE "ok",
                    Named(KI!KiRsaPrivate(k.n, k.e, k.d, k.p, k.q, k.u, TRUE, e.kw, e.deep), "returned key's components inconsistent: "),
                    Named(KI!KiRsaCrt(k.d, k.p, k.q, k.dp, k.dq, k.invq, e.kw), "returned key's CRT values inconsistent: ")>>)
-RsaVerdict(e) == LET v == RsaOffered(e) IN WithModel(e, v, Against(e.api, v, e.exc, RsaReturned(e)))
+\* RsaImportDocumentedClasses: RSA.import_key documents ValueError, IndexError and TypeError for input it cannot make a key of; a refusal of
+\* an invalid offer with one of the other two counts as the documented refusal (a valid key refused is still reported with the class seen)
+RsaExc(e, v) == IF e.api = "import_key" /\ e.exc \in {"IndexError", "TypeError"} /\ v.st # "ok" THEN "ValueError" ELSE e.exc
+RsaVerdict(e) == LET v == RsaOffered(e) IN WithModel(e, v, Against(e.api, v, RsaExc(e, v), RsaReturned(e)))
 
 \* ------------------------------------------------------------------ DSA, ElGamal
 \* O8: a public-only key whose y is in range: that y is a power of g (y^q = 1 mod p) is not required by the statement and not checked here:
